@@ -46,7 +46,9 @@ pub fn hit_event(max_avals: usize) -> impl Strategy<Value = HitEvent> {
         (100u16..=400, 0u16..256, 0u16..575),
         vec((aval_spec(380), 0u16..24, 0u16..12), 0..=max_avals),
         vec((0u16..256, 0u16..380, 1.0f32..100.0), 0..=3),
-        vec((0u8..32, 0u16..576, 0u16..380, 10.0f32..500.0), 0..=3),
+        // lone pads: any column (255 = the column facing the first wire hit), rows with the
+        // two ends of the detector (0, 1, 574, 575) made frequent
+        vec((prop_oneof![3 => 0u8..32, 1 => Just(255u8)], prop_oneof![6 => 0u16..576, 1 => Just(575u16), 1 => Just(0u16), 1 => Just(574u16), 1 => Just(1u16)], 0u16..380, 10.0f32..500.0), 0..=3),
         (prop_oneof![3 => Just(0u8), 1 => 1u8..4], any::<u64>(), prop_oneof![Just(1400u16), Just(64), Just(60000), 40u16..3000], any::<u32>(), any::<bool>()),
     )
         .prop_map(|((bins, w0, r0), specs, extra_w, extra_p, (noise, noise_seed, chunk_size, timestamp, induction))| {
@@ -64,7 +66,8 @@ pub fn hit_event(max_avals: usize) -> impl Strategy<Value = HitEvent> {
                 .collect();
             let (mut wire_hits, mut pad_hits) = hits_of(&specs);
             wire_hits.extend(extra_w.into_iter().map(|(wire, bin, amp)| WireHit { wire, bin: bin % bins, amp }));
-            pad_hits.extend(extra_p.into_iter().map(|(column, row, bin, amp)| PadHit { column, row, bin: bin % bins, amp }));
+            let facing = wire_hits.first().map(|w| geometric_column(w.wire as usize) as u8);
+            pad_hits.extend(extra_p.into_iter().map(|(column, row, bin, amp)| PadHit { column: if column == 255 { facing.unwrap_or(0) } else { column }, row, bin: bin % bins, amp }));
             HitEvent { wire_hits, pad_hits, noise, noise_seed, wire_bins: bins, pad_bins: bins.min(411), chunk_size, timestamp, induction }
         })
 }
